@@ -17,7 +17,7 @@ WEIRD_TEL = [
     'a', '(-1) < a', '1-2 > a', '(1-2) >: a', '(-2) <: a', 'x > a', 'X > a', '"s" > a', '(1,2) > a', '0 > a', '(2-2) < a', '1+1 > a', '(a) > a', 'f(1) > a', '1 > 2 > a', '- 1 > a', '-(1) > a',
     '&foo', '&initially', '&true', '&(true)', '& a', '&true(1)', '& 1', '&"x"', '&final & &initial',
     '(a,b)', '[a]', '{a}', '(a,)', '()', '1', '"a"', '#sup', '#inf', 'a(b)(c)' , 'f(X)', 'X', '_', '_a', 'a_', "a'", "'a", "a'b", '-a', '- - a', '-(a & b)', '- 1', '-"x"',
-    'a & ', '> ', '~', 'a b', 'a >? ', '>? >? a', '>* >* >* a', '<< << a', '>> >> a', 'a >? b >? c', 'a ;> b ;> c', 'a <; b <; c', 'a ;> b <; c', 'a <> b <> c',
+    ': a', ': a, b', '', ' : not a', 'a & ', '> ', '~', 'a b', 'a >? ', '>? >? a', '>* >* >* a', '<< << a', '>> >> a', 'a >? b >? c', 'a ;> b ;> c', 'a <; b <; c', 'a ;> b <; c', 'a <> b <> c',
     'a << b', 'a >> b', 'a ~ b', 'a < b < c', '1 < 2 < a', 'a < b', 'a > b', 'a >: b', 'a + b', 'a - b', 'a * b', 'a / b', 'a .. b', 'a ; b', 'a , b', 'a : b', 'a : b, c', 'a ; b : c',
     '> > > > > > > > a', '9 > a', '99999999999 > a', '2147483648 > a', '~ ~ ~ ~ a', 'a & b | c -> d <- e <> f', 'p(1) & p(2)', 'p(1;2)', 'p(1..2)', 'p(X) : q(X)', 'a : not b', 'a : b, not c',
     '__final', '__initial', '__false', '__aux_0', '__future_a', '&__final',
@@ -153,6 +153,15 @@ def run(ctx):
         cli_n += 1
         if rc is None or rc == 0 or ('*** ERROR' not in se and 'error' not in se.lower()):
             uniq.append({'key': 'c15:cli-exit', 'what': 'command line: exit status %s without error message for an input that telingo rejects: %s' % (rc, json.dumps(t)), 'input': {'cli_text': t, 'args': ['--imax=3', '--istop=unknown', '0']}})
+            break
+    # valid programs with #show statements must run through the command line without a traceback from telingo's own code
+    for t in ['#program always.\n{a}.\n#show c : a.\n', '#program always.\n{a}.\n#show a/0.\n#show c.\n', '#program always.\n{a}. b :- a.\n#show.\n#show b/0.\n#show (a,1) : a.\n',
+              '#program initial.\n{a}.\n#show 5 : a.\n#show "x" : a.\n', '#program dynamic.\n{p(1)}.\n#show f(X) : p(X).\n#show -p/1.\n']:
+        rc, so, se = cli(['--imax=2', '--istop=unknown', '0'], t)
+        cli_n += 1
+        if rc not in (10, 20, 30) or 'Traceback' in se:
+            uniq.append({'key': 'c15:cli-valid', 'what': 'command line fails on a valid program: exit %s: %s; input %s' % (rc, json.dumps(se.strip().split('\n')[-1][:200]), json.dumps(t)),
+                         'input': {'cli_text': t, 'args': ['--imax=2', '--istop=unknown', '0'], 'expect': 'accept'}})
             break
     for args, exp in OPTION_CASES:
         rc, so, se = cli(args + (['--imax=2'] if exp == 'accept-bounded' and False else []), 'a.\n:- a.\n' if exp == 'accept-bounded' else 'a.\n', timeout=8 if exp == 'accept-bounded' else 30)
